@@ -44,6 +44,7 @@ var (
 	c02chunkTwin  = core.RegCounter("c02.hedged_replayed_with_other_chunking")
 	c02enumCases  = core.RegCounter("c02.entropy_error_enumeration_cases")
 	c02ctx255     = core.RegCounter("c02.context_of_254_or_255_bytes")
+	c02alias      = core.RegCounter("c02.returned_public_key_scribbled_by_the_caller")
 )
 
 func init() {
@@ -183,6 +184,13 @@ func runC02(e *Env, r *core.Run) {
 				return
 			}
 			priv = k
+			// what GenerateKey hands back must not share memory with the private key: a caller that
+			// edits its copy of the public key (to build a negative test, to reuse the buffer) must
+			// not change what the key signs
+			for i := range p {
+				p[i] ^= 0xff
+			}
+			r.Count(c02alias)
 		}
 	} else {
 		priv = ed25519.NewKeyFromSeed(g.Bytes(32))
@@ -199,6 +207,19 @@ func runC02(e *Env, r *core.Run) {
 	if pk2, ok := priv.Public().(ed25519.PublicKey); !ok || !bytes.Equal(pk2, pub) {
 		r.Fail("exactness", "Public", "PrivateKey.Public() does not return the key's public half")
 		return
+	} else {
+		// returned values are the caller's: scribbling on them must not reach the key
+		sd := priv.Seed()
+		for i := range pk2 {
+			pk2[i] ^= 0xff
+		}
+		for i := range sd {
+			sd[i] ^= 0xff
+		}
+		if !bytes.Equal(priv, spriv) {
+			r.Fail("exactness", "returned-value-aliases-private-key", "after the caller modified the values returned by GenerateKey / Public() / Seed(), the private key is no longer the RFC 8032 key of its seed")
+			return
+		}
 	}
 
 	nreq := 1 + t.W(4)
@@ -221,6 +242,10 @@ func runC02(e *Env, r *core.Run) {
 			panic("harness: stdlib refused a valid request: " + err.Error())
 		}
 		// ---- sign ----
+		// key and message live in one allocation ("key | gap | message | guard"): both slices have
+		// spare capacity; a signer that appends to or writes behind its arguments changes the buffer
+		pg := NewPackedGuarded(priv, msg)
+		priv, msg := ed25519.PrivateKey(pg.Part(0)), pg.Part(1)
 		var sig []byte
 		hedged := false
 		opts := &ed25519.Options{Hash: v.hash(), Context: v.ctx}
@@ -297,6 +322,10 @@ func runC02(e *Env, r *core.Run) {
 		}
 		if err != nil {
 			r.Fail("completeness", "valid-request-refused", "signing a valid request (ctx %d bytes, ph=%v) failed: %v", len(v.ctx), v.ph, err)
+			return
+		}
+		if !pg.Intact() {
+			r.Fail("caller-memory", "caller-buffer-modified", "the buffer holding the caller's private key and message (key | gap | message | guard) was modified by signing")
 			return
 		}
 		r.Ev("sign entry=%d ctx=%d ph=%v hedged=%v msg=%s -> %s", entry, len(v.ctx), v.ph, hedged, core.Hex8(msg), core.Hex8(sig))
